@@ -108,7 +108,7 @@ class C11(Prop):
                   'the Lean model starts from the per-user sums.')
     budget = {'quick': 15000, 'thorough': 300000}
     search_budget = {'quick': 20000, 'thorough': 300000}
-    rule = ('case = (free cores, [(running, ready)] for 0..12 users, the users\' counters sharded over 1..16 tokens of user_inst_coll_resources '
+    rule = ('case = (free cores, [(running, ready)] for 0..12 users (0.3 % of the cases: 99..257 users, around the 100-row pages of the gear row iterator), the users\' counters sharded over 1..16 tokens of user_inst_coll_resources '
             'with negative shards that sum to the totals, rows of other instance collections, users whose shards cancel to zero; the free cores are held by 1..6 real Instance workers of a real Pool, some oversubscribed '
             '(negative free cores), some unhealthy (not counted); a quarter of the cases make 2-3 compute_fair_share calls on the one scheduler that overlap at the '
             'query and are resumed in a random order, each with its own workers; some cases make 2-3 calls one after the other with the rows of '
@@ -496,6 +496,10 @@ class C11(Prop):
     def cases(self, rng, n, tier):
         for _ in range(n):
             nu = rng.choice([0, 1, 1, 2, 2, 3, 3, 4, 5, 6, 7, 8, 9, 10, 11, 12])
+            if rng.random() < 0.003:
+                # more users than one page of the row iterator the demand query is read through (gear Transaction.execute_and_fetchall
+                # fetches 100 rows at a time): page boundaries and trailing partial pages (seed C11-13)
+                nu = rng.choice([99, 100, 101, 130, 199, 200, 201, 257])
             scale = rng.choice(['tiny', 'tiny', 'mcpu', 'mcpu', 'mid', 'big'])
             users = []
             for _i in range(nu):
